@@ -332,8 +332,16 @@ class Session:
         self.client_hello_seen = True
 
     def handle_tls_server_hello(self, record: TlsRecord):
-        if self.client_hello_seen:
-            self.can_decrypt = True
+        # without a ClientHello there is no client random to look the secrets up with
+        if not self.client_hello_seen:
+            return
+
+        # a truncated ServerHello cannot be parsed
+        if len(record.binary) < 39 or len(record.binary) < 38 + record.binary[38] + 1 + 3:
+            self.can_decrypt = False
+            return
+
+        self.can_decrypt = True
 
         self.server_random = record.binary[6: 38]
         logging.info(f"Server Random: {self.server_random.hex()}")
@@ -376,6 +384,7 @@ class Session:
                         self.tls_version = TlsVersion.TLS12
                 else:
                     self.can_decrypt = False
+                    return
         self.generate_keys(self.tls_version, self.ciphersuite, self.client_random, self.server_random)
 
     def handle_alert(self, alert_level):
